@@ -17,7 +17,8 @@ RULE = ('all sequences over the 15 outcome kinds up to length 3 (3615, '
         'distinct by (kind sequence, layer stack, options).')
 ASSUMPTIONS = ['world hooks report facts truthfully, in program order']
 FLOORS = {'episodes_with_test': 1000, 'episodes_without_test': 50,
-          'mirror_checked': 1000, 'nontrivial_episodes': 500}
+          'mirror_checked': 1000, 'nontrivial_episodes': 500,
+          'unit_inner_tests': 300}
 BATCH_TIMEOUT = 300
 
 KINDS = ['pass', 'fail', 'error', 'setup_error', 'teardown_error',
@@ -42,7 +43,7 @@ def batch_size(tier):
     return 30
 
 
-def make_world(prefix, seq, rng):
+def make_world(prefix, seq, rng, units=True):
     import gen
     n = rng.randint(1, 4)
     layers = gen.random_layer_graph(rng, nmax=n, nmin=n, p_edge=0.7,
@@ -92,6 +93,20 @@ def make_world(prefix, seq, rng):
         extra.append({'t': 'class', 'name': 'TestOther', 'layer': other,
                       'tests': [{'name': 'test_o', 'kind': 'pass'},
                                 {'name': 'test_p', 'kind': 'skip_deco'}]})
+    if rng.random() < 0.15 and units:
+        # a class run as a unit (a test entry that runs several test cases
+        # against the same result): every test case inside is bracketed like
+        # any other test
+        fx = rng.choice([{'setUpClass': 'ok'}, {'setUpClass': 'ok'},
+                         {'tearDownClass': 'raise:KeyError'},
+                         {'setUpClass': 'skip'},
+                         {'setUpClass': 'raise:ValueError'}])
+        unit = {'t': 'unit', 'name': 'UnitS', 'layer': top, 'fixture': fx,
+                'tests': [{'name': 'test_u%d' % j, 'kind': rng.choice(
+                    ['pass', 'pass', 'fail', 'error', 'skip_body',
+                     'skip_deco', 'teardown_error'])}
+                    for j in range(rng.randint(2, 3))]}
+        nodes.insert(rng.randint(0, len(nodes)), unit)
     spec = {'prefix': prefix, 'layers_module': prefix + '_layers',
             'layers': layers,
             'modules': [{'name': prefix + '_p.tests.test_s',
@@ -154,8 +169,11 @@ def run_case(case):
     import common
     import oracles
     rng = random.Random(case['wseed'])
-    spec = make_world('vwb%d' % case['idx'], case['seq'], rng)
     opts = case['opts']
+    # (-D runs every entry of the layer's test list inside one bracket: no
+    # units there)
+    spec = make_world('vwb%d' % case['idx'], case['seq'], rng,
+                      units=not opts.get('pm'))
     py = case.get('python')
     if py and not os.path.exists(py):
         py = None
@@ -189,6 +207,9 @@ def run_case(case):
     viol += v
     viol += w.cviol[:3]
     counters.update(st)
+    counters['unit_inner_tests'] = len({
+        e['id'] for e in w.events if e['k'] == 'test.setUp' and
+        '.UnitS.' in e['id']})
     hook_layers = sum(1 for ls in spec['layers']
                       if 'testSetUp' in ls['hooks'] or
                       'testTearDown' in ls['hooks'])
